@@ -249,8 +249,49 @@ def run_table(ctx, pdb2sql, rep, case, record=True):
                                             blank_chain=any(a['chainID'] == '' for a in atoms), message=str(e)[:80]))
     if bad is None and file_issue is not None:
         bad = ('impl_vs_spec', file_issue)
+    if bad is None and fits and lines[0] == 'OK' and not any(a['chainID'] == '' for a in atoms):
+        bad = derived_paths(ctx, pdb2sql, rows, lines[1], atoms)
     if bad:
         rep.mismatch(bad[0], case, **bad[1])
+
+def derived_paths(ctx, pdb2sql, rows, L, atoms):
+    """the two other places where the exported text is what counts: (a) exportpdb of a NON-default table of a multi-table
+    database writes that table's lines; (b) a sub-database (db(**selection)) is the re-parse of the exported selection —
+    also when the parent was created with the rarely used fix_chainID=True (here a no-op on the parent: its chains are
+    already A, B, ...) — and must hold the selected rows, chain labels included"""
+    chains = sorted({a['chainID'] for a in atoms})
+    fn = os.path.join(ctx.scratch, 'c02_other_table.pdb')
+    try:
+        other = ['ATOM      1  CA  GLY Z   1       1.000   2.000   3.000  1.00  0.00           C  ']
+        m = pdb2sql.many2sql([other, L])
+        names = m._get_table_names()
+        m.exportpdb(fn, tablename=names[1])
+        got = open(fn).read()
+        want = ''.join(l + '\n' for l in m.sql2pdb(tablename=names[1]))     # (re-reading may move a value onto a threshold)
+        m._close()
+        if got != want:
+            return ('impl_vs_spec', dict(why='exportpdb(tablename=<second table>) did not write that table', got=got[:170], want=want[:170]))
+    except Exception as e:
+        return ('impl_vs_spec', dict(why='exportpdb on a multi-table database raised ' + exc_class(e)))
+    finally:
+        if os.path.exists(fn):
+            os.remove(fn)
+    if len(chains) >= 2 and chains == [chr(65 + i) for i in range(len(chains))]:
+        try:
+            parent = pdb2sql.pdb2sql(L, fix_chainID=True)
+            sel = chains[-1]
+            sub = parent(chainID=sel)
+            rows_sub = canon_rows(sub.get('*'))
+            rows_par = canon_rows(parent.get('*', chainID=sel))
+            sub._close(); parent._close()
+            ap = ctx.model.batch([['spec.export.approx_row', r, r2] for r, r2 in zip(rows_par, rows_sub)])
+            if len(rows_sub) != len(rows_par) or not all(o == 1 for o in ap):
+                k = next((i for i, o in enumerate(ap) if o != 1), 0)
+                return ('impl_vs_spec', dict(why='sub-database of a fix_chainID=True parent differs from the selected rows', parent_row=rows_par[k] if k < len(rows_par) else None,
+                                            sub_row=rows_sub[k] if k < len(rows_sub) else None))
+        except Exception as e:
+            return ('impl_vs_spec', dict(why='deriving a sub-database raised ' + exc_class(e)))
+    return None
 
 def replay(ctx, case):
     pdb2sql = import_impl()
